@@ -60,6 +60,9 @@ const (
 type Profile struct {
 	Tiny     bool // the tinyfo subset (C17)
 	RepsOnly bool // one representative per lowering class (thorough k=3)
+	// ExtWithReps: a round-3 production (ext) combines only with representatives: a term may contain a
+	// production p inside a production a only if neither is ext or the other one is a representative (quick tier, k = 2)
+	ExtWithReps bool
 	Only     map[string]bool
 }
 
@@ -72,6 +75,7 @@ type Gen struct {
 	Aux     []Def          // lifted top-level functions, in definition order
 	Used    map[string]int // constructs used in this term
 	lifted  int
+	stack   []*prod
 	InBlock bool
 	steer   bool // the next hole steers control flow: offer every leaf (true/false, every constructor)
 }
@@ -139,6 +143,12 @@ func (g *Gen) leafOptions(t Type, env Env2, all bool) []func() Expr {
 		out = append(out, func() Expr { return SliceLit{[]Expr{trI(g.nextInt()), trI(g.nextInt())}} })
 	case "int->int":
 		out = append(out, func() Expr { return Var{"inc"} })
+	case "V":
+		out = append(out, func() Expr { return Ctor{Case: "P", Arg: Tuple{[]Expr{trI(g.nextInt()), trS(g.nextStr())}}} },
+			func() Expr {
+				return Ctor{Case: "Q", Arg: RecordLit{Rec: "R", Fields: []FieldInit{{"A", trI(g.nextInt())}, {"B", trS(g.nextStr())}}}}
+			},
+			func() Expr { return Ctor{Case: "L", Arg: SliceLit{[]Expr{trI(g.nextInt()), trI(g.nextInt())}}} })
 	case "Opt<int>":
 		out = append(out, func() Expr { return Ctor{Case: "Some", Arg: trI(g.nextInt())} },
 			func() Expr { return Ctor{Case: "None", TypeArgs: []Type{"int"}, UnitCall: true} })
@@ -160,6 +170,10 @@ type prod struct {
 	rep   bool
 	tiny  bool
 	block bool // only in block position
+	// noTarget: not as the target of a match / condition: the value's type is only known after inference (a
+	// generic call's result), and fc needs the target's type where the match is written (DESIGN: C02 domain rules, C09 forms 4/5)
+	noTarget bool
+	ext      bool // round 3 (see Profile.ExtWithReps)
 	app   func(t Type) bool
 	mk    func(g *Gen, t Type, env Env2, fuel int, pos int) Expr
 }
@@ -881,6 +895,300 @@ func init() {
 		f := g.split(fuel-1, 2)
 		return call("strings.Concat", StrLit{","}, SliceLit{[]Expr{g.Gen("string", env, f[0], PosExpr), g.Gen("string", env, f[1], PosExpr)}})
 	}})
+	// ---- round 3: lowering classes the first alphabet did not reach ----
+	// 27 recursion: a top-level function that calls itself (result type annotated, as fc's own sources do);
+	// the step runs k times, then the base
+	add(prod{ext: true, rep: true, name: "rec-fun", app: any_, mk: func(g *Gen, t Type, env Env2, fuel, pos int) Expr {
+		f := g.split(fuel-1, 2)
+		k := g.freshName("k")
+		saveBlock := g.InBlock
+		g.InBlock = true
+		base := g.blk(t, env.with(k, "int"), f[0])
+		g.InBlock = false
+		step := g.Gen("unit", env.with(k, "int"), f[1], PosExpr)
+		g.InBlock = saveBlock
+		g.lifted++
+		fn := fmt.Sprintf("lift%d%s", g.lifted, g.Suffix)
+		fv := map[string]bool{}
+		freeVars(base, map[string]bool{k: true}, fv)
+		freeVars(step, map[string]bool{k: true}, fv)
+		var names []string
+		for n := range fv {
+			if _, ok := env.typeOf(n); ok {
+				names = append(names, n)
+			}
+		}
+		sort.Strings(names)
+		fd := FuncDef{Name: fn, Params: []Param{{Name: k, Type: "int"}}, Ret: t}
+		kn := g.freshName("kn")
+		self := []Expr{Var{kn}}
+		args := []Expr{IntLit{2}}
+		for _, n := range names {
+			ty, _ := env.typeOf(n)
+			fd.Params = append(fd.Params, Param{Name: n, Type: ty})
+			self = append(self, Var{n})
+			args = append(args, Var{n})
+		}
+		fd.Body = B(If{Cond: BinOp{"<", Var{k}, IntLit{1}}, Then: base,
+			Else: &Block{Stmts: []Stmt{Let{kn, BinOp{"-", Var{k}, IntLit{1}}}, ExprStmt{step}}, Final: App{Fn: fn, Args: self}}})
+		g.Aux = append(g.Aux, fd)
+		return App{Fn: fn, Args: args}
+	}})
+	// 28 a top-level function that returns a lambda capturing its parameter; the closure is created once and called twice
+	add(prod{ext: true, rep: true, name: "closure-returned", block: true, app: is("int"), mk: func(g *Gen, t Type, env Env2, fuel, pos int) Expr {
+		f := g.split(fuel-1, 3)
+		c, h := g.freshName("c"), g.freshName("h")
+		save := g.InBlock
+		g.InBlock = false
+		lamBody := g.blk("int", env.with(c, "int").with("x", "int"), f[1])
+		g.InBlock = save
+		g.lifted++
+		fn := fmt.Sprintf("lift%d%s", g.lifted, g.Suffix)
+		fv := map[string]bool{}
+		freeVars(lamBody, map[string]bool{c: true, "x": true}, fv)
+		var names []string
+		for n := range fv {
+			if _, ok := env.typeOf(n); ok {
+				names = append(names, n)
+			}
+		}
+		sort.Strings(names)
+		fd := FuncDef{Name: fn, Params: []Param{{Name: c, Type: "int"}}}
+		args := []Expr{g.Gen("int", env, f[0], PosExpr)}
+		for _, n := range names {
+			ty, _ := env.typeOf(n)
+			fd.Params = append(fd.Params, Param{Name: n, Type: ty})
+			args = append(args, Var{n})
+		}
+		fd.Body = B(Lambda{[]Param{{Name: "x", Type: "int"}}, &Block{Stmts: lamBody.Stmts, Final: BinOp{"+", BinOp{"+", Var{"x"}, Var{c}}, lamBody.Final}}})
+		g.Aux = append(g.Aux, fd)
+		return &Block{Stmts: []Stmt{Let{h, App{Fn: fn, Args: args}}},
+			Final: BinOp{"-", call(h, g.Gen("int", env, f[2], PosExpr)), call(h, trI(g.nextInt()))}}
+	}})
+	// 29 union whose payloads are a tuple, a record and a slice
+	add(prod{ext: true, rep: true, name: "match-union-payload-shapes", app: is("int", "string", "unit"), mk: func(g *Gen, t Type, env Env2, fuel, pos int) Expr {
+		f := g.split(fuel-1, 4)
+		tg := g.Steer("V", env, f[0])
+		pa, pb, pv := g.freshName("p"), g.freshName("q"), g.freshName("pv")
+		bp := g.blk(t, env.with(pa, "int").with(pb, "string"), f[1])
+		names := []string{pa, pb}
+		if !Uses(bp, pa) {
+			names[0] = "_"
+		}
+		if !Uses(bp, pb) {
+			names[1] = "_"
+		}
+		armP := Arm{"P", pv, &Block{Stmts: append([]Stmt{LetDestr{names, Var{pv}}}, bp.Stmts...), Final: bp.Final}}
+		if names[0] == "_" && names[1] == "_" {
+			armP = Arm{"P", "_", bp}
+		}
+		r := g.freshName("r")
+		a, b := g.freshName("fa"), g.freshName("fb")
+		bq := g.blk(t, env.with(a, "int").with(b, "string"), f[2])
+		armQ := Arm{"Q", r, substVars(bq, map[string]Expr{a: Field{Var{r}, "A"}, b: Field{Var{r}, "B"}}).(*Block)}
+		if !Uses(bq, a) && !Uses(bq, b) {
+			armQ = Arm{"Q", "_", bq}
+		}
+		xs := g.freshName("xs")
+		bl := g.blk(t, env.with(xs, "[]int"), f[3])
+		armL := Arm{"L", xs, bl}
+		if !Uses(bl, xs) {
+			armL = Arm{"L", "_", bl}
+		}
+		return Match{Target: tg, Arms: []Arm{armP, armQ, armL}}
+	}})
+	// 30 a unit-valued lambda handed to slice.Iter, applied or as a pipe stage
+	add(prod{ext: true, rep: true, name: "iter-lambda", app: is("unit"), mk: func(g *Gen, t Type, env Env2, fuel, pos int) Expr {
+		f := g.split(fuel-1, 2)
+		piped := g.C.Choose(2) == 1
+		xs := g.Gen("[]int", env, f[0], PosExpr)
+		save := g.InBlock
+		g.InBlock = false
+		lam := Lambda{[]Param{{Name: "x"}}, g.blk("unit", env.with("x", "int"), f[1])}
+		g.InBlock = save
+		if !Uses(lam.Body, "x") {
+			g.C.Skip("the element must be used: its type is not annotated")
+		}
+		if piped {
+			return BinOp{"|>", xs, call("slice.Iter", lam)}
+		}
+		return call("slice.Iter", lam, xs)
+	}})
+	// 31 constructors as function values
+	add(prod{name: "ctor-piped", noTarget: true, app: is("U"), mk: func(g *Gen, t Type, env Env2, fuel, pos int) Expr {
+		return BinOp{"|>", g.Gen("int", env, fuel-1, PosExpr), Var{"I"}}
+	}})
+	add(prod{name: "ctor-mapped", noTarget: true, app: is("U"), mk: func(g *Gen, t Type, env Env2, fuel, pos int) Expr {
+		return call("slice.Last", call("slice.Map", Var{"I"}, g.Gen("[]int", env, fuel-1, PosExpr)))
+	}})
+	// 32 ordering on strings
+	bin("order-string:<", "<", "bool", "string", false, false)
+	bin("order-string:>=", ">=", "bool", "string", false, false)
+	prods[len(prods)-1].ext, prods[len(prods)-2].ext = true, true
+	// 33 partial application of a function VALUE (a let-bound two-parameter lambda)
+	add(prod{ext: true, rep: true, name: "partial-fnvalue", block: true, app: any_, mk: func(g *Gen, t Type, env Env2, fuel, pos int) Expr {
+		f := g.split(fuel-1, 2)
+		f2, pg := g.freshName("ff"), g.freshName("pg")
+		lam := Lambda{[]Param{{Name: "a", Type: "int"}, {Name: "b", Type: "int"}}, B(BinOp{"-", Var{"a"}, BinOp{"*", Var{"b"}, IntLit{2}}})}
+		body := g.blk(t, env.with(pg, "int->int"), f[1])
+		if !Uses(body, pg) {
+			g.C.Skip("unused partial application")
+		}
+		return &Block{Stmts: append([]Stmt{Let{f2, lam}, Let{pg, call(f2, g.Gen("int", env, f[0], PosExpr))}}, body.Stmts...), Final: body.Final}
+	}})
+	// 34 if / elif without else
+	add(prod{ext: true, name: "elif-only", app: is("unit"), mk: func(g *Gen, t Type, env Env2, fuel, pos int) Expr {
+		f := g.split(fuel-1, 4)
+		return If{Cond: g.Steer("bool", env, f[0]), Then: g.blk("unit", env, f[1]),
+			Elifs: []ElifArm{{g.Steer("bool", env, f[2]), g.blk("unit", env, f[3])}}}
+	}})
+	// 35 a named function as an argument; index-taking and two-parameter un-annotated lambdas; zipped pairs
+	add(prod{ext: true, name: "map-fn", app: is("[]int"), mk: func(g *Gen, t Type, env Env2, fuel, pos int) Expr {
+		return call("slice.Map", Var{"inc"}, g.Gen("[]int", env, fuel-1, PosExpr))
+	}})
+	add(prod{ext: true, name: "lambda-mapi", app: is("[]int"), mk: func(g *Gen, t Type, env Env2, fuel, pos int) Expr {
+		f := g.split(fuel-1, 2)
+		lam := Lambda{[]Param{{Name: "i"}, {Name: "x"}}, B(BinOp{"+", BinOp{"*", Var{"i"}, IntLit{10}}, BinOp{"+", Var{"x"}, g.Gen("int", env.with("i", "int").with("x", "int"), f[0], PosExpr)}})}
+		return call("slice.Mapi", lam, g.Gen("[]int", env, f[1], PosExpr))
+	}})
+	add(prod{ext: true, name: "lambda-fold-unannotated", app: is("int"), mk: func(g *Gen, t Type, env Env2, fuel, pos int) Expr {
+		f := g.split(fuel-1, 2)
+		lam := Lambda{[]Param{{Name: "acc"}, {Name: "x"}}, B(BinOp{"-", BinOp{"*", Var{"acc"}, IntLit{2}}, Var{"x"}})}
+		return call("slice.Fold", lam, g.Gen("int", env, f[0], PosExpr), g.Gen("[]int", env, f[1], PosExpr))
+	}})
+	add(prod{ext: true, name: "zip-map-pair", app: is("[]int"), mk: func(g *Gen, t Type, env Env2, fuel, pos int) Expr {
+		f := g.split(fuel-1, 2)
+		lam := Lambda{[]Param{{Name: "tp"}}, B(BinOp{"-", call("frt.Fst", Var{"tp"}), call("frt.Snd", Var{"tp"})})}
+		return BinOp{"|>", call("slice.Zip", g.Gen("[]int", env, f[0], PosExpr), g.Gen("[]int", env, f[1], PosExpr)), call("slice.Map", lam)}
+	}})
+	// 36 a lambda whose un-annotated parameter is a record (field access decides its type), piped and applied
+	add(prod{ext: true, name: "filter-field", app: is("int"), mk: func(g *Gen, t Type, env Env2, fuel, pos int) Expr {
+		f := g.split(fuel-1, 3)
+		piped := g.C.Choose(2) == 1
+		rs := SliceLit{[]Expr{g.Gen("R", env, f[0], PosExpr), g.Gen("R", env, f[1], PosExpr)}}
+		rx := g.freshName("rx") // fresh: the hole beside it is generated in the outer scope and must not be captured
+		lam := Lambda{[]Param{{Name: rx}}, B(BinOp{">", Field{Var{rx}, "A"}, g.Gen("int", env, f[2], PosExpr)})}
+		if piped {
+			return BinOp{"|>", BinOp{"|>", rs, call("slice.Filter", lam)}, Var{"slice.Length"}}
+		}
+		return call("slice.Length", call("slice.Filter", lam, rs))
+	}})
+	// 37 a pipeline over slices: partial application, lambda and bare function as stages
+	add(prod{ext: true, name: "pipe-chain-slices", app: is("int"), mk: func(g *Gen, t Type, env Env2, fuel, pos int) Expr {
+		f := g.split(fuel-1, 2)
+		lam := Lambda{[]Param{{Name: "x"}}, B(BinOp{">", Var{"x"}, IntLit{3}})}
+		return BinOp{"|>", BinOp{"|>", BinOp{"|>", g.Gen("[]int", env, f[0], PosExpr), call("slice.Map", call("add3", IntLit{1}, g.Gen("int", env, f[1], PosExpr)))}, call("slice.Filter", lam)}, Var{"slice.Length"}}
+	}})
+	// 38 a string match with several literal arms, one of them with a block body
+	add(prod{ext: true, name: "match-string-multi", app: any_, mk: func(g *Gen, t Type, env Env2, fuel, pos int) Expr {
+		f := g.split(fuel-1, 3)
+		tg := []Expr{trS("s1"), trS("b"), trS("zz")}[g.C.Choose(3)]
+		sb := g.blk(t, env, f[1])
+		withSay := &Block{Stmts: append([]Stmt{ExprStmt{call("say", StrLit{"arm-b"})}}, sb.Stmts...), Final: sb.Final}
+		return SMatch{Target: tg, Lits: []SArm{{"s1", g.blk(t, env, f[0])}, {"b", withSay}, {"c", g.blk(t, env, 0)}}, Last: g.blk(t, env, f[2])}
+	}})
+	// 39 tuple-returning library calls destructured: dict.TryFind (present / missing key), slice.TryFind
+	add(prod{ext: true, name: "tryfind-destr", block: true, app: any_, mk: func(g *Gen, t Type, env Env2, fuel, pos int) Expr {
+		f := g.split(fuel-1, 2)
+		which := g.C.Choose(3)
+		v, ok := g.freshName("tv"), g.freshName("ok")
+		body := g.blk(t, env.with(v, "int").with(ok, "bool"), f[1])
+		if !Uses(body, v) && !Uses(body, ok) {
+			g.C.Skip("result unused")
+		}
+		names := []string{v, ok}
+		if !Uses(body, v) {
+			names[0] = "_"
+		}
+		if !Uses(body, ok) {
+			names[1] = "_"
+		}
+		var stmts []Stmt
+		if which < 2 {
+			d := g.freshName("d")
+			key := []string{"k", "missing"}[which]
+			stmts = []Stmt{
+				Let{d, App{Fn: "dict.New", TypeArgs: []Type{"string", "int"}, Args: []Expr{UnitLit{}}}},
+				ExprStmt{call("dict.Add", Var{d}, StrLit{"k"}, g.Gen("int", env, f[0], PosExpr))},
+				LetDestr{names, call("dict.TryFind", Var{d}, StrLit{key})}}
+		} else {
+			lam := Lambda{[]Param{{Name: "x"}}, B(BinOp{">", Var{"x"}, IntLit{2}})}
+			stmts = []Stmt{LetDestr{names, call("slice.TryFind", lam, SliceLit{[]Expr{IntLit{1}, g.Gen("int", env, f[0], PosExpr), IntLit{9}}})}}
+		}
+		return &Block{Stmts: append(stmts, body.Stmts...), Final: body.Final}
+	}})
+	// 40 a local function with two parameters that captures a local, called fully and partially applied
+	add(prod{ext: true, rep: true, name: "local-fun2", block: true, app: any_, mk: func(g *Gen, t Type, env Env2, fuel, pos int) Expr {
+		if !g.InBlock {
+			g.C.Skip("local function let only directly in a function body")
+		}
+		f := g.split(fuel-1, 3)
+		kk, fn, pl := g.freshName("kk"), g.freshName("lg"), g.freshName("pl")
+		fb := &Block{Stmts: []Stmt{ExprStmt{call("say", Var{"lb"})}}, Final: BinOp{"+", BinOp{"+", Var{"la"}, Var{kk}}, g.Gen("int", env.with("la", "int").with(kk, "int"), f[1], PosExpr)}}
+		save := g.InBlock
+		body := g.blk(t, env.with(pl, "int->int"), f[2])
+		g.InBlock = save
+		if !Uses(body, pl) {
+			g.C.Skip("unused local function")
+		}
+		stmts := []Stmt{Let{kk, g.Gen("int", env, f[0], PosExpr)},
+			LetFun{fn, []Param{{Name: "lb", Type: "string"}, {Name: "la", Type: "int"}}, fb},
+			Let{pl, call(fn, StrLit{"lg"})}}
+		return &Block{Stmts: append(stmts, body.Stmts...), Final: body.Final}
+	}})
+	// 41 laziness with PURE operands: branches / arms / right operands that contain no call at all (a literal, a
+	// top-level variable, arithmetic on them).  The poison gv / gz (gz = 0) panics when evaluated and is out of
+	// domain where the reference evaluates it; in an untaken branch, an unmatched arm or a short-circuited
+	// operand it must not be evaluated.  (Traced leaves are calls, so they never exercise a lowering that
+	// treats call-free operands specially.)
+	pures := func() []Expr {
+		return []Expr{IntLit{7}, Var{"gv"}, BinOp{"/", Var{"gv"}, Var{"gz"}}, BinOp{"-", Var{"gv"}, IntLit{1}}}
+	}
+	// (then, else) / (then, elif, else): at most one poisoned branch, beside literals, variables and arithmetic
+	add(prod{ext: true, rep: true, name: "if-pure-branches", app: is("int"), mk: func(g *Gen, t Type, env Env2, fuel, pos int) Expr {
+		cond := g.Steer("bool", env, fuel-1)
+		m := pures()
+		pairs := [][2]int{{0, 1}, {1, 2}, {2, 1}, {0, 2}, {2, 0}, {3, 2}, {2, 3}, {3, 1}}
+		pr := pairs[g.C.Choose(len(pairs))]
+		return If{Cond: cond, Then: B(m[pr[0]]), Else: B(m[pr[1]])}
+	}})
+	add(prod{ext: true, name: "elif-pure-branches", app: is("int"), mk: func(g *Gen, t Type, env Env2, fuel, pos int) Expr {
+		f := g.split(fuel-1, 2)
+		m := pures()
+		triples := [][3]int{{2, 1, 0}, {1, 2, 0}, {1, 3, 2}, {2, 3, 1}, {3, 2, 1}, {0, 1, 3}}
+		tr := triples[g.C.Choose(len(triples))]
+		return If{Cond: g.Steer("bool", env, f[0]), Then: B(m[tr[0]]), Elifs: []ElifArm{{g.Steer("bool", env, f[1]), B(m[tr[1]])}}, Else: B(m[tr[2]])}
+	}})
+	add(prod{ext: true, name: "logic-pure-poison", app: is("bool"), mk: func(g *Gen, t Type, env Env2, fuel, pos int) Expr {
+		op := []string{"&&", "||"}[g.C.Choose(2)]
+		return BinOp{op, g.Steer("bool", env, fuel-1), Paren{BinOp{">", BinOp{"/", Var{"gv"}, Var{"gz"}}, IntLit{0}}}}
+	}})
+	add(prod{ext: true, name: "match-pure-arms", app: is("int"), mk: func(g *Gen, t Type, env Env2, fuel, pos int) Expr {
+		tg := g.Steer("U", env, fuel-1)
+		return Match{Target: tg, Arms: []Arm{{"I", "i", B(BinOp{"/", Var{"i"}, Var{"gz"}})}, {"S", "_", B(IntLit{7})}, {"N", "", B(Var{"gv"})}}}
+	}})
+	// 42 a binder that reuses the name of an enclosing local of ANOTHER type; the outer one is used again afterwards
+	add(prod{ext: true, rep: true, name: "shadow-match-binder", tiny: true, block: true, app: is("string"), mk: func(g *Gen, t Type, env Env2, fuel, pos int) Expr {
+		// the outer local is used again in a LATER ARM and, after the match, as the value of an if branch (where a
+		// translator needs its type, not only its name)
+		f := g.split(fuel-1, 2)
+		m := g.freshName("m")
+		rhs := g.Gen("string", env, f[0], PosExpr)
+		tg := g.Steer("U", env.with("sh", "string"), f[1])
+		laterArm := B(If{Cond: BinOp{"=", If{Cond: BoolLit{true}, Then: B(Var{"sh"}), Else: B(StrLit{"q"})}, StrLit{"zz"}}, Then: B(IntLit{5}), Else: B(IntLit{0})})
+		mt := Match{Target: tg, Arms: []Arm{{"I", "sh", B(BinOp{"+", Var{"sh"}, IntLit{1}})}, {"S", "_", laterArm}, {"N", "", B(IntLit{2})}}}
+		return &Block{Stmts: []Stmt{Let{"sh", rhs}, Let{m, mt}},
+			Final: If{Cond: BinOp{">", Var{m}, IntLit{1}}, Then: B(Var{"sh"}), Else: B(BinOp{"+", Var{"sh"}, StrLit{"x"}})}}
+	}})
+	add(prod{ext: true, name: "shadow-inner-let", tiny: true, block: true, app: is("int"), mk: func(g *Gen, t Type, env Env2, fuel, pos int) Expr {
+		f := g.split(fuel-1, 2)
+		r := g.freshName("r")
+		rhs := g.Gen("int", env, f[0], PosExpr)
+		inner := &Block{Stmts: []Stmt{Let{"sh", StrLit{"str"}}}, Final: If{Cond: BinOp{"=", Var{"sh"}, StrLit{"str"}}, Then: B(IntLit{1}), Else: B(IntLit{2})}}
+		cond := If{Cond: g.Steer("bool", env.with("sh", "int"), f[1]), Then: inner, Else: B(IntLit{0})}
+		return &Block{Stmts: []Stmt{Let{"sh", rhs}, Let{r, cond}},
+			Final: If{Cond: BinOp{">", Var{r}, IntLit{0}}, Then: B(Var{"sh"}), Else: B(BinOp{"+", Var{"sh"}, IntLit{1}})}}
+	}})
 	// 25 sequencing
 	add(prod{name: "seq", rep: true, tiny: true, block: true, app: any_, mk: func(g *Gen, t Type, env Env2, fuel, pos int) Expr {
 		f := g.split(fuel-1, 2)
@@ -1083,12 +1391,27 @@ func (g *Gen) Gen(t Type, env Env2, fuel int, pos int) Expr {
 		g.steer = false
 		return opts[g.C.Choose(len(opts))]()
 	}
+	steering := g.steer
 	g.steer = false
 	var ps []*prod
 	for i := range prods {
 		p := &prods[i]
 		if !p.app(t) {
 			continue
+		}
+		if p.noTarget && steering {
+			continue
+		}
+		if g.P.ExtWithReps {
+			bad := false
+			for _, a := range g.stack {
+				if (p.ext && !a.rep) || (a.ext && !p.rep) {
+					bad = true
+				}
+			}
+			if bad {
+				continue
+			}
 		}
 		if p.block && pos != PosBlock {
 			continue
@@ -1114,7 +1437,9 @@ func (g *Gen) Gen(t Type, env Env2, fuel int, pos int) Expr {
 	if !p.block {
 		g.InBlock = false
 	}
+	g.stack = append(g.stack, p)
 	e := p.mk(g, t, env, fuel, pos)
+	g.stack = g.stack[:len(g.stack)-1]
 	g.InBlock = inBlock
 	return e
 }
